@@ -103,8 +103,8 @@ func buildCorpus(c *fw.Ctx) *builtCorpus {
 		}
 	}
 	// everything that influences the runner binary goes into the key
-	repoHash, _ := exec.Command("bash", "-c", "cd /repo && { git rev-parse HEAD; git diff HEAD -- . ':!example' ':!cmd' ; git status --porcelain -- . ':!example'; } | sha256sum").Output()
-	harnessHash, _ := exec.Command("bash", "-c", "cd /verif/harness && cat gencheck/*.go internal/prng/*.go cmd/corr/gen.go internal/genpipe/*.go | sha256sum").Output()
+	repoHash, _ := exec.Command("bash", "-c", "cd "+fw.RepoDir+" && { git rev-parse HEAD; git diff HEAD -- . ':!example' ':!cmd' ; git status --porcelain -- . ':!example'; } | sha256sum").Output()
+	harnessHash, _ := exec.Command("bash", "-c", "cd "+fw.VerifDir+"/harness && cat gencheck/*.go internal/prng/*.go cmd/corr/gen.go internal/genpipe/*.go | sha256sum").Output()
 	key := genpipe.Key(bc.gens, string(repoHash), string(harnessHash))
 	bc.dir = filepath.Join(cache, "gen", key)
 	bc.bin = filepath.Join(bc.dir, "run.bin")
